@@ -332,6 +332,10 @@ def repair_residue(molecule, ref_residue, include_graph):
             node = molecule.nodes[res_idx]
             if include_graph:
                 node['graph'] = molecule.subgraph([res_idx])
+            # Atoms that come from a modification rather than from the block
+            # do not carry a residue name. They still are part of this
+            # residue, whose name changes in case of a mutation.
+            ref_node.setdefault('resname', resname)
             node.update(ref_node)
             # Update found as well to keep found and molecule in line. It would
             # be better to try and figure why found is not a reference, but meh
